@@ -20,7 +20,10 @@ func flipHash(w *World, h *types.Hash) { h[w.R.T.Choose(types.HashSize)] ^= byte
 
 var BlockMutations = []BlockMutation{
 	{"version", true, func(w *World, b *nom.AccountBlock) bool { b.Version = uint64(w.R.T.Choose(4)) * 2; return true }},
-	{"chain-id", true, func(w *World, b *nom.AccountBlock) bool { b.ChainIdentifier += uint64(1 + w.R.T.Choose(3)); return true }},
+	{"chain-id", true, func(w *World, b *nom.AccountBlock) bool {
+		b.ChainIdentifier += uint64(1 + w.R.T.Choose(3))
+		return true
+	}},
 	{"block-type", true, func(w *World, b *nom.AccountBlock) bool {
 		o := b.BlockType
 		b.BlockType = uint64(w.R.T.Choose(7))
